@@ -857,9 +857,12 @@ def run_check(pid, tier, seed):
 def run_replay_file(path):
     with open(path) as fh:
         rp = json.load(fh)
-    if 'behaviour' not in rp or not rp['behaviour']:
-        print('replay file has no behaviour (crash record): re-run the check that produced it')
-        return 2
+    beh = rp.get('behaviour') or []
+    if not beh or not all(isinstance(e, dict) and 'e' in e for e in beh):
+        # crash records and violations of generated cases (shapes / tables / policy rows / thread schedules) have no
+        # single event history: the replay is the check itself
+        print('replay: re-running the quick check of %s (the violation is not tied to one recorded history)' % rp['property'])
+        return run_check(rp['property'], 'quick', int(os.environ.get('VERIF_SEED', '1') or 1))
     variant = rp.get('variant') or 'all-dev'
     d = tempfile.mkdtemp(prefix='replay', dir=CACHE if os.path.isdir(CACHE) else None)
     try:
